@@ -16,6 +16,7 @@ ths = {f"Pog.{pid}.{n}": kind(n) for n in names}
 for ns, lst in re.findall(r"^-- INDEX ([A-Za-z0-9_.]+):\s*(.+)$", src, re.M):
     for n in [x.strip() for x in lst.split(",") if x.strip()]:
         ths[f"{ns}.{n}"] = kind(n)
-d[pid] = {"modules": [f"Pog.Props.{pid}"], "theorems": ths, "trusted": trusted or old.get("trusted", [])}
+mods = [f"Pog.Props.{pid}"] + re.findall(r"^-- MODULE ([A-Za-z0-9_.]+)\s*$", src, re.M)   # modules that import this one and prove claimed theorems
+d[pid] = {"modules": mods, "theorems": ths, "trusted": trusted or old.get("trusted", [])}
 json.dump(d, open(p, "w"), indent=1)
 print(pid, len(ths), "theorems")
